@@ -55,6 +55,7 @@ func applyProfile(g *Gen, profile string) {
 		g.Modes = []int{1}
 		g.PSingleLetter = 80
 		g.MaxOpts = 6
+		g.Kinds = []int{KBool, KBool, KBool, KIncr, KIntRep, KFloatRep, KMap, KStrRep, KStrOpt, KIntOpt, KStr}
 		g.UModes = []int{-1, 0, 1, 2, 2}
 	case "soup":
 		g.PMalformed = 90
@@ -191,7 +192,7 @@ func genArgvFor(g *Gen, profile string, p *ProgDef) []string {
 		// plant unknown options at random positions
 		n := 1 + g.r.Intn(2)
 		for i := 0; i < n; i++ {
-			u := []string{"--unknown", "-u", "--typo=1", "-Q", "--verbosee", "--zz", "-unk", "--un=a=b", "-QW"}[g.r.Intn(9)]
+			u := []string{"--unknown", "-u", "--typo=1", "-Q", "--verbosee", "--zz", "-unk", "--un=a=b", "-QW", "--qq-unk1", "--qq-unk2=v", "--qq-unk3"}[g.r.Intn(12)]
 			pos := g.r.Intn(len(out) + 1)
 			out = append(out[:pos], append([]string{u}, out[pos:]...)...)
 		}
